@@ -1,4 +1,5 @@
 import HexProofs.Numeric.Simple
+import HexProofs.Numeric.SeriesInputsThres
 import HexProofs.Numeric.AvgExtra
 import HexProofs.Numeric.Channel
 import HexProofs.Numeric.Extremes
@@ -1066,7 +1067,10 @@ on the first `t0` candles and numeric afterwards), the engine's `calculate()` ne
 own reading is `None` on the first `t0 + p` candles and afterwards a non-negative float within `ε_n`
 of the population standard deviation of the last `p` inputs – i.e. the series of `stdev_series`
 shifted by `t0`, whatever else the candles hold.
-NOT proved.  Proved instead: the instance `t0 = 0` on raw candles with a candle-field input
+FALSE AS WRITTEN (`C05_inputs_FULL_false`: a bool among the first `t0` inputs counts as a reading; replayed on the library).  With the
+extra hypothesis that the input reading is `None` on the first `t0` candles it is PROVED over every candle list:
+`C05_inputs_partial_holds` (STDEV), `C05_BBANDS_inputs_holds`, `C05_STDEVTHRES_inputs_holds` (end of this file).
+Proved earlier: the instance `t0 = 0` on raw candles with a candle-field input
 (`stdev_series`, `Numeric.stdev_series_engine`, `stdev_series_batch`, `stdev_series_live`, and likewise
 for the other ten indicators above), and every single call for arbitrary inputs (first half of the
 file).  Missing: the series induction over candle lists with foreign columns and a late-starting
@@ -1087,5 +1091,51 @@ def C05_inputs_FULL : Prop :=
       ∀ j, j < cs.length →
         (j < t0 → readingByCandle (out.getD j default) nm = .none) ∧
         (t0 ≤ j → StdevOwnOK n (stdevSeries p x (j - t0)) (readingByCandle (out.getD j default) nm))
+
+/-- **`C05_inputs_FULL` is false as written** (same defect as `C04_FULL`: a `bool` on the first `t0`
+candles is a reading; a dict raises `TypeError`).  Witness: foreign reading `X = True, 5.0`,
+`StandardDeviation(period=1, input_value="X")` stores a float on candle 1 where the statement
+(`t0 = 1`) promises `None`. -/
+theorem C05_inputs_FULL_false : ¬ C05_inputs_FULL := Numeric.c05_inputs_full_false
+
+/-- `C05_inputs_FULL` with the missing hypothesis made explicit (the first `t0` input readings are `None`) -/
+def C05_inputs_partial : Prop :=
+  ∀ (K : Type) [Field K] [LinearOrder K] [IsStrictOrderedRing K] [LawfulPyF K] [NonnegSqrt K]
+    (p : Nat) (nm input : String) (n t0 : Nat) (cs : List (Candle K)) (x : Nat → K),
+    1 ≤ p → SdNames nm → IsKey input → input ≠ nm → input ≠ nm ++ "_data" →
+    (∀ c ∈ cs, dlookup nm c.inds = none ∧ dlookup nm c.subs = none ∧
+      dlookup (nm ++ "_data") c.inds = none ∧ dlookup (nm ++ "_data") c.subs = none) →
+    (∀ j, j < cs.length →
+      (match readingByCandle (cs.getD j default) input with
+        | .s (.num r) => some r.toF
+        | _ => none) = if j < t0 then none else some (x (j - t0))) →
+    (∀ j, j < cs.length → j < t0 → readingByCandle (cs.getD j default) input = .none) →
+    ∃ out : List (Candle K), engineCalc (mkTop (.stdev (p : Int) input : Kind K) nm n) cs = .ok out ∧
+      out.length = cs.length ∧
+      ∀ j, j < cs.length →
+        (j < t0 → readingByCandle (out.getD j default) nm = .none) ∧
+        (t0 ≤ j → StdevOwnOK n (stdevSeries p x (j - t0)) (readingByCandle (out.getD j default) nm))
+
+/-- **the corrected `C05_inputs_FULL` holds** (STDEV) -/
+theorem C05_inputs_partial_holds : C05_inputs_partial := Numeric.c05_inputs_partial
+
+/-- the same shape for BBANDS (`BbOwnOK` / `bbSeries`) and STDEVTHRES (`ThOK`) -/
+theorem C05_BBANDS_inputs_holds : Numeric.C05BbandsStatement := Numeric.c05_bbands
+theorem C05_STDEVTHRES_inputs_holds : Numeric.C05ThresStatement := Numeric.c05_thres
+
+/-- non-vacuity: `STDEV_2` of the foreign reading `"EMA_2"` of `demoForeign` -/
+example : ∃ out : List (Candle ℚ),
+    engineCalc (mkTop (.stdev ((2 : Nat) : Int) "EMA_2" : Kind ℚ) "STDEV_2" 4) demoForeign = .ok out ∧
+    out.length = demoForeign.length ∧
+    ∀ j, j < demoForeign.length →
+      (j < 2 → readingByCandle (out.getD j default) "STDEV_2" = .none) ∧
+      (2 ≤ j → StdevOwnOK 4 (stdevSeries 2 demoX (j - 2)) (readingByCandle (out.getD j default) "STDEV_2")) :=
+  C05_inputs_partial_holds ℚ 2 "STDEV_2" "EMA_2" 4 2 demoForeign demoX (by norm_num) sdNames_demo2 (by decide)
+    (by decide) (by decide)
+    (fun c hc => ⟨(demoForeign_abs "STDEV_2" (by decide) (by decide) (by decide) c hc).1,
+      (demoForeign_abs "STDEV_2" (by decide) (by decide) (by decide) c hc).2,
+      (demoForeign_abs "STDEV_2_data" (by decide) (by decide) (by decide) c hc).1,
+      (demoForeign_abs "STDEV_2_data" (by decide) (by decide) (by decide) c hc).2⟩)
+    demoForeign_in demoForeign_none
 
 end Hex.C05
